@@ -427,4 +427,101 @@ Proof.
       cbn [C19Canon.okx]. apply pub_fold_meta_none; [reflexivity|]. left. now apply outputs_stuck.
 Qed.
 
+(* an entry that lets the attempt run to its end *)
+Definition full_entry (e : entry) : Prop := (4 + length (e_order e) <= e_k e)%nat.
+
+Lemma filter_len {A} (p : A -> bool) l : (length (filter p l) <= length l)%nat.
+Proof. induction l as [|a l IH]; cbn [filter length]; [lia|]. destruct (p a); cbn [length]; lia. Qed.
+
+Lemma attempt_full fixed c x e :
+  okx c x -> fixed = true \/ bs = 1%nat -> (forall d, x <> XIncomplete d) ->
+  can_complete c -> (md = Retro -> (c < n)%nat) -> entry_ok e = true -> full_entry e ->
+  fst (attempt md fixed (Z.of_nat bs) n (canon c x) e) = canon (S c) XNone.
+Proof.
+  intros Hx Hfix Hx' Hcan Hcn He Hfull. unfold attempt.
+  rewrite (plan_canon fixed c x Hx Hfix) by (intros E; specialize (Hcn E); lia).
+  apply andb_true_iff in He as [Hcov Hml].
+  assert (F1 : rmtree (step_of bs c) (canon c x) = canon c x) by (now apply rmtree_canon).
+  assert (F2 : mk_iter (Z.of_nat (c / bs)) (canon c x) = canon c XEmptyIter).
+  { rewrite mk_iter_canon. destruct x; try reflexivity. exfalso. eapply Hx'. reflexivity. }
+  pose proof (mk_plate_canon c) as F3.
+  assert (Edone : match md with Retro => (n <=? c)%nat | Prosp => false end = false).
+  { destruct md_cases as [E|E]; [rewrite (md_retro _ _ E); apply Nat.leb_gt; auto|now rewrite (md_prosp _ _ E)]. }
+  assert (Eplan : match x with
+                  | XIncomplete _ => PNamed 1 (step_of bs c)
+                  | _ => if match md with Retro => (n <=? c)%nat | Prosp => false end then PDone else PActs (acts_of c)
+                  end = PActs (acts_of c)).
+  { rewrite Edone. destruct x; try reflexivity. exfalso. eapply Hx'. reflexivity. }
+  rewrite Eplan. unfold acts_of. cbn [firstn nth]. unfold full_entry in Hfull.
+  destruct (e_k e) as [|[|[|[|k']]]] eqn:Ek; try lia.
+  cbn [Nat.ltb Nat.leb firstn fold_left apply_action fst Nat.sub]. rewrite ?Nat.sub_0_r.
+  rewrite F1, F2, F3, upd_plate_canon, publish_all_canon. cbn [fst].
+  rewrite (outputs_canon c empty_pdir Hcan).
+  rewrite firstn_all2 by (unfold pubs_of; pose proof (filter_len (produced (ip c)) (e_order e)); lia).
+  rewrite (pub_fold_all (ip c) _ (e_order e) Hcov (ip_by c)). apply canon_complete.
+Qed.
+
+(* ---------- completed steps of a canonical tree ---------- *)
+Lemma step_of_split I a : (a < bs)%nat -> step_of bs (I * bs + a) = (Z.of_nat I, Z.of_nat a).
+Proof. intros H. unfold step_of. destruct (dm_unique I a H) as [-> ->]. reflexivity. Qed.
+
+Lemma completed_plates I : forall cnt a, (a + cnt <= bs)%nat ->
+  flat_map (fun p : Z * pdir => match f_meta (snd p) with Some _ => [((Z.of_nat I, fst p), snd p)] | None => [] end)
+           (plates_of I a cnt)
+  = map (ideal_step md bs n) (seq (I * bs + a) cnt).
+Proof.
+  induction cnt as [|cnt IH]; intros a H; [reflexivity|].
+  unfold C19Canon.plates_of. rewrite tab_cons. fold (plates_of I (S a) cnt).
+  cbn [flat_map seq map fst snd]. rewrite (ip_meta md bs n). cbn [app]. rewrite IH by lia.
+  unfold ideal_step at 2. rewrite step_of_split by lia.
+  replace (I * bs + S a)%nat with (S (I * bs + a)) by lia. reflexivity.
+Qed.
+
+Lemma completed_of_iter_canon I J x : (J <= bs)%nat -> okx (I * bs + J) x ->
+  completed_of_iter (Z.of_nat I, plates_of I 0 J ++ tail_of x J) = map (ideal_step md bs n) (seq (I * bs) J).
+Proof.
+  intros HJ Hx. unfold completed_of_iter. cbn [fst snd].
+  pose proof (sort_plates I 0 J x) as Hs. cbn [Nat.add] in Hs. rewrite Hs.
+  rewrite flat_map_app, completed_plates by lia. rewrite Nat.add_0_r.
+  destruct x as [| |d]; cbn [tail_of flat_map]; rewrite ?app_nil_r; try reflexivity.
+  cbn [snd]. cbn in Hx. rewrite Hx. now rewrite app_nil_r.
+Qed.
+
+Lemma completed_full : forall cnt a,
+  flat_map completed_of_iter (tab full_iter a cnt) = map (ideal_step md bs n) (seq (a * bs) (cnt * bs)).
+Proof.
+  induction cnt as [|cnt IH]; intros a; [reflexivity|].
+  rewrite tab_cons. cbn [flat_map]. rewrite IH.
+  pose proof (completed_of_iter_canon a bs XNone (le_n bs) I) as H. cbn [tail_of] in H. rewrite app_nil_r in H.
+  unfold C19Canon.full_iter.
+  etransitivity; [apply (f_equal2 (@app _)); [exact H|reflexivity]|]. rewrite <- map_app. f_equal.
+  replace (S cnt * bs)%nat with (bs + cnt * bs)%nat by lia. rewrite seq_app. do 2 f_equal. lia.
+Qed.
+
+Lemma completed_canon c x : okx c x -> completed (canon c x) = ideal md bs n c.
+Proof.
+  intros Hx. unfold completed. rewrite sort_canon. unfold C19Canon.canon. rewrite flat_map_app, completed_full.
+  destruct (dm_spec c) as [Hc Hr]. unfold ideal. rewrite Hc at 4. rewrite seq_app, map_app. cbn [Nat.mul Nat.add]. f_equal.
+  assert (Hx2 : okx (c / bs * bs + c mod bs) x) by (destruct x; cbn in *; auto).
+  pose proof (completed_of_iter_canon (c / bs) (c mod bs) x (Nat.lt_le_incl _ _ Hr) Hx2) as H.
+  unfold C19Canon.last_iter. destruct (c mod bs)%nat as [|j] eqn:EJ.
+  - destruct x as [| |d]; [reflexivity| |]; cbn [flat_map]; rewrite H; reflexivity.
+  - cbn [flat_map]. rewrite H. now rewrite app_nil_r.
+Qed.
+
+Lemma ideal_length c : length (ideal md bs n c) = c.
+Proof. unfold ideal. now rewrite map_length, seq_length. Qed.
+
+Lemma step_of_inj a b : step_of bs a = step_of bs b -> a = b.
+Proof.
+  unfold step_of. intros E. injection E as E1 E2. apply Nat2Z.inj in E1, E2.
+  destruct (dm_spec a) as [Ha _]. destruct (dm_spec b) as [Hb _]. rewrite Ha, Hb, E1, E2. reflexivity.
+Qed.
+
+Lemma next_not_completed c : ~ In (step_of bs c) (map fst (ideal md bs n c)).
+Proof.
+  unfold ideal. rewrite map_map. cbn [ideal_step fst]. intros H. apply in_map_iff in H as (k & E & Hk).
+  apply step_of_inj in E. apply in_seq in Hk. lia.
+Qed.
+
 End Step.
